@@ -84,6 +84,31 @@ def drive_products(rec, part, ells, reps):
                     events.append({"e": "QProd", "kind": kind, "impl": impl, "ell": ell,
                                    "x": [elem_residues(qc, lx, e) for e in xs], "y": [elem_residues(qc, ly, e) for e in ys],
                                    "res": results[impl], "_what": label})
+    # the three product tables built afresh in every order: a table may not depend on which tables were built before it
+    if part == 0:
+        import itertools
+        for order in itertools.permutations(["baa", "bbb", "bbc"]):
+            fresh = {}
+            for kd in order:
+                fresh[kd] = L.fn("q120_new_vec_mat1col_product_%s_precomp" % kd, "p ")()
+            for (kind, lx, ly) in kinds[:3]:
+                ell = 9
+                xs = [lanes(qc, lx, "random", rng, i) for i in range(ell)]
+                ys = [lanes(qc, ly, "random", rng, i) for i in range(ell)]
+                for impl in ("ref", "avx2"):
+                    label = "q120 product %s_%s ell=%d with tables built in the order %s" % (kind, impl, ell, "/".join(order))
+                    if not rec.progress(label):
+                        continue
+                    res = q120.product(qc, kind, impl, xs, ys, pre=fresh[kind])
+                    rec.case((kind, impl, "order", order.index(kind)))
+                    if res is None:
+                        rec.violation(label + ": operand modified or write outside the result", {"kind": kind})
+                        continue
+                    events.append({"e": "QProd", "kind": kind, "impl": impl, "ell": ell,
+                                   "x": [elem_residues(qc, lx, e) for e in xs], "y": [elem_residues(qc, ly, e) for e in ys],
+                                   "res": [qc.residues(r) for r in res], "_what": label})
+            for kd in order:
+                L.fn("q120_delete_vec_mat1col_product_%s_precomp" % kd, "v p")(fresh[kd])
     rec.data["events"] = events
 
 
